@@ -359,3 +359,53 @@ def r6(rr, repo):
     for c in subs:
         rr.ob('subscriptions are only made while constructing a source', enclosing_function(c) is za.RS_init, za.mod, c, key='subscribe-site')
     rr.floor('SUBSCRIBE sites', len(subs), 3, za.mod, za.RS_init)
+
+
+@rule('C02.R7', 'state hand-over discipline: send() reports the next acceptable id (min_send_id read after the publish) on every non-timeout return; MQ clears send_state after a send and recv_state after a recv, '
+                'so an id is never reused for a second send nor a stale expected id for a second recv')
+def r7(rr, repo):
+    za = anchors(repo)
+    rets = [n for n in walk_scope(za.S_send) if isinstance(n, ast.Return)]
+    k = 0
+    for r in rets:
+        v = r.value
+        if v is None or (isinstance(v, ast.Constant) and v.value is None):
+            g = q.guards_of(r, stop=za.S_send)
+            rr.ob('send() returns None only on the timeout path', any('timeout' in U(t) for t, pol in g), za.mod, r, key='ret-none')
+            continue
+        k += 1
+        ok = isinstance(v, ast.Call) and U(v.func).endswith('ZMQStateRecv') and len(v.args) == 1 and U(v.args[0]) == 'self.min_send_id'
+        rr.ob('send() returns ZMQStateRecv(self.min_send_id)', ok, za.mod, r, witness=U(v), key='ret-state')
+    rr.floor('state-returning exits of send()', k, 3, za.mod, za.S_send)
+    from .zmq import MQF
+    mqm, mq_send = repo.find(f'{MQF}::MQ.send')
+    _, mq_recv = repo.find(f'{MQF}::MQ.recv')
+    ev = Evaluator(repo, mqm)
+    n = 0
+    for p in ev.run(mq_send.body):
+        sent = [e for e in p.events if e.kind == 'call' and e.term == 'self.sender.send']
+        if not sent:
+            continue
+        res_none = [v for kk, v in p.pc if kk.startswith('isnone(self.sender.send(')]
+        if res_none and res_none[0] is True:
+            isret, isconst, val = ret_const(p)
+            rr.ob('a timed-out send reports False and keeps the state for the retry', isret and isconst and val is False and not [e for e in p.events if e.kind == 'store' and e.term == 'self.send_state'], mqm, sent[0].node, witness=p.pc_text()[-200:], key='timeout-keeps-state')
+            continue
+        n += 1
+        st = [e for e in p.events if e.kind == 'store' and e.term == 'self.send_state' and p.events.index(e) > p.events.index(sent[0])]
+        rr.ob('after a send the id handed over by recv() is used up (self.send_state = None)', bool(st) and st[-1].args[0] == 'None', mqm, sent[0].node, witness=p.pc_text()[-200:], key='send-state-cleared')
+        rs = [e for e in p.events if e.kind == 'store' and e.term == 'self.recv_state']
+        rr.ob('after a send the state returned by the sender becomes the next expected id of recv()', bool(rs) and 'self.sender.send(' in rs[-1].args[0], mqm, sent[0].node, witness=rs[-1].args[0][:120] if rs else '', key='recv-state-set')
+    rr.floor('successful-send paths of MQ.send', n, 1, mqm, mq_send)
+    m = 0
+    for p in Evaluator(repo, mqm).run(mq_recv.body):
+        got = [e for e in p.events if e.kind == 'store' and e.term == 'self.send_state']
+        if not got:
+            continue
+        m += 1
+        rs = [e for e in p.events if e.kind == 'store' and e.term == 'self.recv_state']
+        rr.ob('after a recv the expected id handed over by send() is used up (self.recv_state = None)', bool(rs) and rs[-1].args[0] == 'None', mqm, got[0].node, key='recv-state-cleared')
+        use = [e for e in p.events if e.kind == 'call' and e.term == 'self.receiver.recv']
+        ok = bool(use) and use[0].value.args and isinstance(use[0].value.args[0], ast.IfExp) and U(use[0].value.args[0].body) == 'self.recv_state' and U(use[0].value.args[0].test) == 'self.mq_msgid_sync'
+        rr.ob('recv() hands self.recv_state to the receiver when mq_msgid_sync', ok, mqm, use[0].node if use else mq_recv, key='recv-state-used')
+    rr.floor('receiving paths of MQ.recv', m, 1, mqm, mq_recv)
